@@ -5,6 +5,7 @@ import (
 
 	"github.com/Oneledger/protocol/data/balance"
 	"github.com/Oneledger/protocol/data/keys"
+	"github.com/Oneledger/protocol/storage"
 	ethcmn "github.com/ethereum/go-ethereum/common"
 )
 
@@ -19,6 +20,7 @@ func (s *CommitStateDB) createObject(addr ethcmn.Address) (newObj, prevObj *stat
 		return nil, prevObj
 	}
 	newObj = newStateObject(s, acc)
+	newObj.created = true
 	newObj.setNonce(0) // sets the object to dirty
 
 	if prevObj == nil {
@@ -103,4 +105,21 @@ func (s *CommitStateDB) deleteStateObject(so *stateObject) {
 	so.deleted = true
 	s.logger.Detailf("VM: delete state object for address '%s' with nonce: '%d' and balance: '%d' \n", so.Address(), so.account.Sequence, so.account.Balance())
 	s.accountKeeper.RemoveAccount(*so.account)
+	s.wipeStorage(so.Address())
+}
+
+// wipeStorage deletes every storage slot persisted for the address (also those
+// written earlier in the same block): a destroyed or re-created account leaves
+// no storage behind.
+func (s *CommitStateDB) wipeStorage(addr ethcmn.Address) {
+	var slots [][]byte
+	s.contractStore.IterateStorage(addr, func(key, _ []byte) bool {
+		slots = append(slots, append([]byte{}, key...))
+		return false
+	})
+	for _, key := range slots {
+		if _, err := s.contractStore.State.Delete(storage.StoreKey(key)); err != nil {
+			s.setError(err)
+		}
+	}
 }
